@@ -88,7 +88,8 @@ def sweep_mul(ctx, c, reps):
     cf = CurveFp(p, c[1], c[2])
     for P in pts:
         o = rec.order(c, P)
-        ks = list(range(-3, 2 * o + 4)) + [N - 1, N, N + 1, 2 * N - 1, 2 * N, 2 * N + 1, 4 * N + 1, -N, -N - 1]
+        ks = list(range(-3, 2 * o + 4)) + [N - 1, N, N + 1, 2 * N - 1, 2 * N, 2 * N + 1, 4 * N + 1, -N, -N - 1,
+                                           7 * N + 2, 16 * N - 1, 64 * N + 3, -33 * N - 1, 1 << 40, -(1 << 33) - 1]
         for order in (None, o, N):
             # NAF path, several representations
             for rep in reps:
@@ -102,6 +103,15 @@ def sweep_mul(ctx, c, reps):
                         continue
                     for k in ks:
                         _mulcase(ctx, c, P, k, "table", rep, order, o, "l" if k % 2 else "r", True, fresh_obj=g)
+                    # -g after g's table exists: must denote -P in every later use
+                    try:
+                        ng = -g
+                    except Exception:
+                        ng = None
+                    if ng is not None:
+                        for k in (1, 2, 3, o - 1, o + 1, 2 * o + 1, -2):
+                            _mulcase(ctx, c, rec.neg(c, P), k, "naf-of-negated-table-point", rep, order, o, "r", False,
+                                     fresh_obj=ng)
                 # ... and a fresh object per k, so that the table is built inside this call
                 for k in (-1, 0, 1, 2, 3, o - 1, o, o + 1, 2 * o - 1, 2 * o, 2 * o + 1):
                     _mulcase(ctx, c, P, k, "table", "J1", order, o, "r", False)
@@ -183,6 +193,7 @@ def sweep_muladd(ctx, c, full_b, pmod=1, pres=0):
             L = oP * oQ // math.gcd(oP, oQ)
             arange = range(-2, 2 * L + 2)
             brange = arange if full_b else sorted({-2, -1, 0, 1, 2, 3, L - 1, L, L + 1, 2 * L - 1, 2 * L + 1})
+            huge = [(7 * L + 1, 11 * L + 3), (-9 * L - 2, 5), (3, 64 * L + 1), (-33 * L + 2, -17 * L - 1), (1 << 40, (1 << 41) + 1)]
             combos = [("plain", "plain", None), ("plain", "plain", L), ("z2", "neg", None)]
             if Q is not None:
                 combos += [("gen", "gen", L), ("gen", "plain", L), ("plain", "legacy", None), ("plain", "gen", L),
@@ -191,6 +202,8 @@ def sweep_muladd(ctx, c, full_b, pmod=1, pres=0):
                 for a in arange:
                     for b in brange:
                         _muladd_case(ctx, c, P, Q, a, b, kp, kq if Q is not None else "plain", order, oP, oQ, True)
+                for a, b in huge:
+                    _muladd_case(ctx, c, P, Q, a, b, kp, kq if Q is not None else "plain", order, oP, oQ, False)
 
 
 # ---------------------------------------------------------------- production curves
@@ -299,6 +312,9 @@ def st_big(names, allow_fresh):
             st.integers(0, 1 << 530).map(lambda u: (lambda n: -(u % (2 * n)))),
             st.integers(0, 1 << 530).map(lambda u: (lambda n: 1 + u % (n - 1))),
             st.tuples(st.integers(0, 5), st.integers(-3, 3)).map(lambda t: (lambda n: t[0] * n + t[1])),
+            st.tuples(st.integers(-70, 70), st.integers(-3, 3)).map(lambda t: (lambda n: t[0] * n + t[1])),
+            st.integers(0, 1 << 530).map(lambda u: (lambda n: u % (1 << (n.bit_length() + 7)))),
+            st.integers(0, 1 << 530).map(lambda u: (lambda n: -(u % (1 << (n.bit_length() + 9))))),
         )
 
     return st.builds(mk, st.sampled_from(names), st.sampled_from(objs), st.sampled_from(["mul", "mul", "muladd"]),
